@@ -24,13 +24,13 @@ CHECKS = {
  "C05": dict(engine="adjust", tech="TLA+ spec (Adjust updates) model-checked by TLC; scenario replay; TLC trace validation of returned update lists",
    text="The update lists returned by Create/Update/StopContainer are compared with the specification's collected updates: one entry per target, exact field maps, own entry last (placeholder iff unchanged), self-update fails, ignore-failure conflicts are dropped entirely (labels C05-updates, C05-selfupdate).",
    ref="5/C05"),
- "C09": dict(engine="sync", tech="TLA+ spec (SyncChunk) model-checked by TLC incl. a negative control (policy before the repair); TLC-enumerated size profiles replayed as real registrations in child processes; chunk traces validated by TLC (Trace_Sync)",
+ "C09": dict(engine="sync", tech="TLA+ spec (SyncChunk) model-checked by TLC incl. a negative control (policy before the repair); the count discipline proved inductive for unbounded counts with Apalache (SyncChunkInd); TLC-enumerated size profiles replayed as real registrations in child processes; chunk traces validated by TLC (Trace_Sync)",
    text="SyncChunk.tla is model-checked for every profile of 0-3 pods x 0-11 (14) containers x sizes against the limit (InBounds, Progress, ExactDelivery, CleanFailure, JustifiedFailure, BoundedSends, termination); the transcription of the pre-repair policy must violate it (vacuity guard). Every profile (real multi-megabyte objects against ttRPC's 4 MiB limit, plus thousands of small objects) is one real plugin registration in a child process; the hook-recorded chunk sequence and the plugin's handler call must satisfy the chunk protocol: counts within what remains, correct more flags, progress, exactly one handler call with exactly the supplied state in order and intact, updates returned to the runtime's callback, failure only at the minimum chunk size and without activation, no crash, no hang.",
    ref="5/C09", note="Trusted base: TLC; hooks syncmsg.send/result; a child process per scenario makes a panic of the runtime side observable."),
- "C10": dict(engine="mux", tech="TLA+ spec (Mux) model-checked by TLC over all interleavings incl. a no-lock negative control; executions of the real multiplexer recorded through hook points under the write lock and in the reader, validated by TLC (Trace_Mux)",
+ "C10": dict(engine="mux", tech="TLA+ spec (Mux, MuxTable) model-checked by TLC over all interleavings incl. negative controls; the frame-splitting loop proved for every payload length with Apalache (MuxSplitInd); TLC-generated connection-table operation sequences (Gen_MuxTable) replayed; executions of the real multiplexer recorded through hook points under the write lock and in the reader, validated by TLC (Trace_Mux)",
    text="Mux.tla is model-checked (WellFormed, PrefixInv, Isolated, Complete, ChunksContiguous; without the write lock TLC must find a violation). Recorded runs of the real mux over a socket pair - concurrent writers on both ends, self-describing messages incl. empty payloads and the frame-size boundaries up to 3*max+5, queue lengths 1/2/16/256 - must be behaviours of the specification: every frame the reader parses is the next frame that entered the trunk under the write lock (no interleaving inside a message), every Read returns the head of its own connection's queue intact, and at quiescence everything written has been read, in order, per connection.",
    ref="5/C10", note="Trusted base: TLC; the before/after logging discipline (R2); the harness' frame descriptors. Assumes connection ids opened on both ends before traffic, reader buffers of at least one frame, frames in flight within the queue length."),
- "C11": dict(engine="mux", tech="TLA+ spec (Mux faults: Cut, CloseA, CloseB, overflow) model-checked by TLC incl. liveness AfterClose/WritersEnd; TLC-enumerated fault placements (Gen_Mux) replayed on the real mux with a byte-cutting trunk; traces validated by TLC",
+ "C11": dict(engine="mux", tech="TLA+ spec (Mux faults: Cut, CloseA, CloseB, overflow; MuxTable: handles, re-opened ids, repeated Close) model-checked by TLC incl. liveness AfterClose/WritersEnd; TLC-enumerated fault placements (Gen_Mux) replayed on the real mux with a byte-cutting trunk; traces validated by TLC",
    text="Design: PrefixInv under every fault and the liveness properties AfterClose / WritersEnd are model-checked. Gen_Mux enumerates the trunk cut after byte k in either direction (every k in thorough, every 3rd in quick), a close of either end after j frames by 1, 2 or 8 concurrent closers, and overflow at every position for queue lengths 1 and 2; each is realised on the real mux in a child process (a panic is observed as such). The validated trace must show: received data always the in-order prefix (queue head) of what was sent; an overflow only when the queue really was full; no Read/Write/Close/Accept hanging (3 s watchdog); writes after the failure fail; reads return queued frames and then an error (EOF after an orderly close); second Accept returns EOF after the listener is closed.",
    ref="5/C11", note="As C10. After an error, reads may still return frames that were already queued (conn.Read selects between the closed channel and the queue); the property's prefix clause is what is asserted."),
  "C14": dict(engine="convert", tech="TLA+ spec (Convert: field tables, Copy contract, optional constructors, event-name table) enumerated by TLC; exported pkg/api functions executed on every enumerated input; outputs validated by TLC (Trace_Convert)",
